@@ -1,13 +1,32 @@
 #!/usr/bin/env python3
-"""Merges known/*.json fragments into known_findings.json (single committed file; the driver reads both)."""
-import json, os, glob
+"""Rebuilds known_findings.json: (1) merges the per-property fragments known/*.json (status "known": genuine
+defects recorded rather than repaired, matched at run time by signature), (2) lists every repaired defect
+(status "fixed": one unguarded `fix:` commit in /repo each; a fixed entry suppresses nothing)."""
+import json, os, glob, re, subprocess
 VERIF = os.path.dirname(os.path.dirname(os.path.abspath(__file__)))
 out = os.path.join(VERIF, "known_findings.json")
-cur = json.load(open(out)) if os.path.exists(out) else {"findings": []}
-byid = {k["id"]: k for k in cur.get("findings", [])}
+known = {}
 for f in sorted(glob.glob(os.path.join(VERIF, "known", "*.json"))):
     for k in json.load(open(f)).get("findings", []):
-        byid[k["id"]] = k
-cur["findings"] = sorted(byid.values(), key=lambda k: (k.get("property", ""), k.get("id", "")))
-json.dump(cur, open(out, "w"), indent=1)
-print(len(cur["findings"]), "entries")
+        if k.get("status", "known") == "known":
+            known[k["id"]] = k
+fixed = []
+log = subprocess.run(["git", "-C", "/repo", "log", "--reverse", "--format=%H%x09%s"], stdout=subprocess.PIPE, text=True).stdout
+for line in log.split("\n"):
+    if "\t" not in line:
+        continue
+    sha, subj = line.split("\t", 1)
+    if not subj.startswith("fix:"):
+        continue
+    m = re.search(r"\((C\d\d)\)\s*$", subj)
+    prop = m.group(1) if m else "C??"
+    what = re.sub(r"\s*\(C\d\d\)\s*$", "", subj[4:].strip())
+    fixed.append({"status": "fixed", "property": prop, "commit": sha[:12], "what": what,
+                  "line": "fixed: property=%s %s %s" % (prop, sha[:12], what)})
+doc = {
+ "about": "Known findings of the /verif checks. 'known' entries are genuine defects of BioPP/bpp-core that are recorded instead of repaired: a violation whose signature (clause|class, fnmatch glob) matches is printed as KNOWN-FINDING and does not fail the check; any other violation of the same property still does. 'fixed' entries document repaired defects (fix: commits in /repo) and suppress nothing. The file is read-only at run time.",
+ "findings": sorted(known.values(), key=lambda k: (k.get("property", ""), k.get("id", ""))),
+ "fixed": fixed,
+}
+json.dump(doc, open(out, "w"), indent=1)
+print(len(doc["findings"]), "known,", len(fixed), "fixed")
